@@ -94,6 +94,9 @@ class Program:
         self.enums.setdefault("Option", ["None", "Some"])
         self.enums.setdefault("Result", ["Ok", "Err"])
         self.enums.setdefault("Ordering", ["Relaxed", "Release", "Acquire", "AcqRel", "SeqCst"])
+        self.enums.setdefault("RawEntryMut", ["Occupied", "Vacant"])        # hashbrown
+        self.enums.setdefault("Entry", ["Occupied", "Vacant"])
+        self.enums.setdefault("Cow", ["Borrowed", "Owned"])
 
     def add(self, b):
         self.bodies[b.name] = b
